@@ -36,6 +36,10 @@ CHECKS = {
          "VTLApi models one API call as a state machine over what the caller observes (arguments, outcome, returned results, files); TLC checks FilesFaithful on it (selected results delivered to files or memory, scalar file written once). Each generated script (persistent and non-persistent dataset statements of all modelled operator families, scalar statements incl. null / date / period scalars) and each corpus script is run with an output folder in csv and parquet under both return_only_persistent settings and again in memory; each pair is one event validated by TLC (VTLApi_Trace): file set = one file per returned dataset (+ _scalars.csv), file columns and rows = the in-memory result, returned datasets carry no data, scalar file = returned scalars.",
          "Numbers in files are compared at 12 significant digits (text round trip of doubles); file rows are typed through the declared structure. The TLA+ content is a relation over recorded projections; the strength is the breadth of generated calls.",
          "TLC model checking of the API-call machine + trace validation of (output folder, in-memory) run pairs"),
+ 'C21': ('model_checking',
+         "VTLFormats transcribes the documented input forms of Time_Period (23 forms over 6 indicators) and the four output formats; TLC (GenFormats, with VTLCalendar) proves for EVERY period of the requested years that every rendering is itself a documented input form denoting the same period (day periods through month/day arithmetic), that all input forms of a period agree, and that sdmx_gregorian is expressible exactly for A/M/D, and emits the text of every input form and rendering. The engine receives one table per (indicator, input form) as a measure (CSV and DataFrame) under each output format and as an identifier: the output must equal the documented rendering, non-expressible indicators must raise a VTL error; read-back is covered because every rendering is one of the input forms fed. The Python implementation (check_time_period, TimePeriodHandler and its four representation methods) is run on the same texts and must parse and render identically to the spec, hence to the SQL macros.",
+         "Quick tier: boundary years plus the extreme years 1, 999, 1000, 9999; thorough: every year 1900-2100 plus a sample of 0001-9999. Years below 1000 are a known finding.",
+         "TLC round-trip theorems over the complete period domain + bulk replay into run() and into the Python handlers"),
  'C22': ('model_checking',
          "VTLApi obligation ArgsUnchanged (no step of a call changes the caller's arguments) is checked by TLC on the call machine; every argument of every observed call is projected deeply (dict key order, list items, DataFrame columns / dtypes / index / values, paths, pysdmx datasets) before and after the call and TLC (VTLApi_Trace) compares per argument and names the one that changed. Calls: hand-shaped valid and invalid tables (missing / extra / BOM / reordered columns, duplicates, null identifiers, bad values, empty strings, temporal types, all period output formats) x succeeding and failing scripts for run / validate_dataset / semantic_analysis, value domains, external routines, scalar values, output folders, prettify, generate_sdmx, run_sdmx with pysdmx datasets, random units in every input form, corpus scripts.",
          "DataFrames are projected on their first 2000 rows; pysdmx objects by repr(). URL datapoints cannot be exercised offline.",
